@@ -28,7 +28,11 @@ static void family_of(Rng& r, const Str& seed, StrVec* out) {
             x = b; x.host = render_ip6((const unsigned char*)b.ip.data()); for (auto& ch : x.host) ch = (char)toupper((unsigned char)ch); add(x);
             x = b; unsigned char q[16]; memcpy(q, b.ip.data(), 16); q[15] ^= 1; x.ip.assign((char*)q, 16); x.host = render_ip6(q); add(x);
         }
-        if (b.hostKind == HK_FUTURE) { Comp x = b; x.host += "y"; add(x); x = b; x.host[0] = (char)(x.host[0] ^ 0x20); add(x); }
+        if (b.hostKind == HK_FUTURE) { Comp x = b; x.host += "y"; add(x); x = b; x.host[0] = (char)(x.host[0] ^ 0x20); add(x);
+            // the same characters as a registered name: different host kind, identical host text
+            x = b; x.hostKind = HK_REGNAME; add(x); }
+        if (b.hostKind == HK_REGNAME) { Comp x = b; x.hostKind = HK_FUTURE; add(x); x = b; x.hostKind = HK_FUTURE; x.host = "v1." + (b.host.empty() ? Str("x") : b.host); add(x); x.hostKind = HK_REGNAME; add(x); }
+        if (b.hostKind == HK_IP4) { Comp x = b; x.hostKind = HK_IP6; x.host = "::" + b.host; add(x); x = b; x.hostKind = HK_FUTURE; x.host = "v4." + b.host; add(x); x.hostKind = HK_REGNAME; add(x); }
         { Comp x = b; x.hasAuth = false; x.hasUser = x.hasPort = false; x.hostKind = HK_NONE; x.host.clear(); x.ip.clear(); x.user.clear(); x.port.clear(); add(x); }
     } else {
         Comp x = b; x.hasAuth = true; x.hostKind = HK_REGNAME; x.host = ""; if (!x.path.empty() && x.path[0] != '/') x.path = "/" + x.path; add(x);
